@@ -560,7 +560,7 @@ def run(ctx):
         evaluations=len(built) + prog_stats["functions"], distinct_nontrivial=len(distinct),
         rule="distinct by canonical encoding; non-trivial = nesting depth >= 2 (at least one constructor applied to a component)",
         traces_validated_against_impl=compared, model_disagreements=disagreements, corpus_types=n_corpus,
-        struct_definitions=len(structs), histograms=hist, programs=prog_stats, tables_checked=table_notes,
+        struct_definitions=len(structs), histograms=hist, programs=prog_stats["programs"], program_stats=prog_stats, tables_checked=table_notes,
         spec_violations_found=len(spec_viol), samples=samples, timing_s=timing, notes=ctx.notes)
     return ctx.finish(LEVEL, cov, [
         "types are built as check_instantiate builds them (wfb); the HUGR-bound and drop theorems additionally assume struct type arguments are witnessed by fields (no phantom parameters) — the phantom case is refuted in Coq and listed as a known finding",
